@@ -45,19 +45,26 @@ def isValid (cs : Coins) : Bool :=
 
 def isAnyNegative (cs : Coins) : Bool := cs.any (·.amount < 0)
 
-/-- Add `a` of denomination `d` into a denom-sorted set, dropping a zero result
-(`Coins.Add(coin)` on sorted operands; with a negative `a` this is `SafeSub`). -/
-def addAmt : Coins → Denom → Int → Coins
-  | [], d, a => if a = 0 then [] else [⟨d, a⟩]
-  | c :: rest, d, a =>
-    if c.denom = d then
-      (if c.amount + a = 0 then rest else ⟨d, c.amount + a⟩ :: rest)
-    else if d < c.denom then
-      (if a = 0 then c :: rest else ⟨d, a⟩ :: c :: rest)
-    else c :: addAmt rest d a
+/-- Insert a coin before the first coin with a larger denomination. -/
+def insertSorted : Coins → Coin → Coins
+  | [], c => [c]
+  | x :: rest, c => if c.denom < x.denom then c :: x :: rest else x :: insertSorted rest c
+
+/-- Add `a` of denomination `d` into a coin set, dropping a zero result (`Coins.Add(coin)`; with a
+negative `a` this is `SafeSub`). On denom-sorted sets (all the hub ever holds) this is the merge the
+SDK performs; written so that `amountOf` behaves additively on every list. -/
+def addAmt (cs : Coins) (d : Denom) (a : Int) : Coins :=
+  match cs.find? (·.denom = d) with
+  | some c =>
+    if c.amount + a = 0 then cs.filter (fun x => x.denom ≠ d)
+    else cs.map (fun x => if x.denom = d then ⟨d, x.amount + a⟩ else x)
+  | none => if a = 0 then cs else insertSorted cs ⟨d, a⟩
 
 def add (cs : Coins) (c : Coin) : Coins := addAmt cs c.denom c.amount
 def sub (cs : Coins) (c : Coin) : Coins := addAmt cs c.denom (- c.amount)
+
+/-- All amounts non-negative. -/
+def Nonneg (cs : Coins) : Prop := ∀ c ∈ cs, 0 ≤ c.amount
 
 /-- "denom:amt,denom:amt", "-" when empty (line protocol). -/
 def fmt (cs : Coins) : String :=
